@@ -565,7 +565,8 @@ func createIndexes(ts *Schema, ti *Info, idxs []schema.Index, store *stor.Stor) 
 	ti.Indexes = slices.Clip(ti.Indexes) // copy on write
 	for range idxs {
 		bt := btree.CreateBtree(store)
-		ti.Indexes = append(ti.Indexes, index.OverlayFor(bt))
+		// must have the same number of layers as the existing indexes
+		ti.Indexes = append(ti.Indexes, index.OverlayForN(bt, len(ti.Deltas)))
 	}
 }
 
